@@ -301,6 +301,25 @@ def dupspell_specs(tier, seed):
     return fit_frag(out)
 
 
+def retype_specs(tier, seed):
+    """Sessions in which a relay (or a curious third party behind the same resolver) repeats held and recent queries with
+    the SAME name but ANOTHER record type (ids of their own): such a query is a different question - it must get its own
+    answer, of its own type, or none (C10, C14)."""
+    import dnsmsg as D
+    types = [D.T_NULL, D.T_TXT, D.T_CNAME, D.T_MX, D.T_SRV, D.T_A, D.T_PRIVATE]
+    out = []
+    for i in range(8 if tier == "quick" else 60):
+        red = {}
+        for n in range(3, 140, 1 + i % 3):
+            red[n] = [[[0, 0, 1, 3][(n + j) % 4], 1 + j, [0, 2][(n + j) % 2], (n // 5) % 2, 20 + 60 * j,
+                       types[(n + i + j) % 7]] for j in range(1 + n % 2)]
+        out.append({"seed": seed * 100000 + 2600 + i,
+                    "sess": {"qtype": QTYPES[i % 7], "lazy": [1, 1, 0][i % 3], "fragsize": [None, 200, 100][i % 3]},
+                    "relay": {}, "redeliver": red, "pkts": packets(seed + 260 + i, tier), "dur_ms": 30000,
+                    "label": "retype%d" % i})
+    return fit_frag(out)
+
+
 def fit_frag(specs):
     """C15/C02/C09 speak about a NEGOTIATED fragment size: a size forced with -m above what the record
     type can carry (CNAME/A answers hold one ~250-char name) is outside that; use autoprobe there."""
